@@ -3,7 +3,7 @@ import time
 
 import z3
 
-from .. import driver, engine, symstr, ench
+from .. import driver, engine, symstr, ench, judge
 from ..ctx import Ctx, table_model
 from ..engine import fresh_int, zint
 from ..oread import read_smiles, explicit_valence, table_key
@@ -16,6 +16,9 @@ TEMPLATES6 = [
     [["C", "N", "[N+]", "[C-]", "[Fe]"], ["(F)", "(=O)", ""], ["(F)", ""], ["F", "=O", "#N"]],
     [["[CH3]", "[CH2]", "[NH4+]", "[OH+]", "[FeH]"], ["F", "=O", "(F)F", "#N", "(=O)=O"]],
     ["C", ["1", "=1"], ["C", "[N+]"], ["C", "=C"], ["1", "=1"], ["F", ""]],
+    # aromatic spellings: the bond counts the strict check reads are those left behind by kekulization
+    [["C", "", "O."], ["c1", "[n+]1", "[nH+]1", "n1"], "c", ["c", "c(C)"], "c", ["c", "n"], ["c1", "c1C"]],
+    [["c1cc", "C.c1cc", "Cc1cc"], ["[se]", "o", "s", "[nH]", "n(C)"], ["c1", "c1C"]],
 ]
 
 
@@ -61,13 +64,24 @@ def run(rep, tier, seed, budget):
             bads = []
             if not raised and str(r1[1]) != out0:
                 bads.append(True)
+            vals = None
             if not aromatic:
+                vals = [int(explicit_valence(mol, i)) for i in range(len(mol.atoms))]
+            else:
+                # a kekulizable aromatic input (strict=False accepted it): every aromatic atom of a standard kind has, in
+                # every Kekule form, the same bond-order sum: its sigma bonds + H + 1 if it needs a ring double bond (O-KEK)
+                need = [judge.pi_need(mol, i) if a.aromatic else 0 for i, a in enumerate(mol.atoms)]
+                if all(n is not None for n in need):
+                    vals = []
+                    for i, a in enumerate(mol.atoms):
+                        sig = sum((1 if b.order == 1.5 else b.order) for (x, y), b in mol.bonds.items() if i in (x, y))
+                        vals.append(int(sig + (a.hcount or 0) + need[i]))
+            if vals is not None:
                 over = []
                 for i, a in enumerate(mol.atoms):
-                    v = explicit_valence(mol, i)
                     k = table_key(a)
                     cap = zint(table[k] if k in table else table["?"])
-                    over.append(cap < int(v))
+                    over.append(cap < vals[i])
                 expected = z3.Or(over) if over else z3.BoolVal(False)
                 bads.append(z3.Not(expected) if raised else expected)
             m = eng.find_model(bads)
@@ -77,21 +91,24 @@ def run(rep, tier, seed, budget):
 
     TOKQ = ["C", "N", "O", "F", "[NH4+]", "[C-]", "[Fe]", "[CH3]", "=C", "#N", "=O", "(", ")", "1"]
     TOK = TOKQ if quick else TOK6
-    plan = [("tok", n) for n in ((1, 2, 3) if quick else (1, 2, 3, 4))] + [("tpl", i) for i in range(len(TEMPLATES6))]
-    for kind, n in plan:
-        left = t_end - time.time()
-        if kind == "tok":
-            name = "N=%d SMILES tokens x free table: strict raises iff some atom exceeds its capacity; strict=False never consults the table" % n
-            fn, bounds = mk_path(lambda n=n: make_slots("s", [TOK] * n)), {"tokens": TOK, "N_tokens": n}
-        else:
-            name = "template %d (atoms at, below and above a capacity; charged, H-bearing, '?'-fallback) x free table" % n
-            fn, bounds = mk_path(lambda n=n: make_slots("s", TEMPLATES6[n])), {"template": TEMPLATES6[n]}
-        bounds["table"] = "keys %s free in 0..9" % KEYS6
-        if left < 5:
-            rep.parts.append({"name": name, "complete": False, "paths": 0, "bounds": bounds, "claim": "not started (time budget)"})
-            continue
-        res = driver.explore_parallel(fn, left * 0.5)
-        rep.add_part(name, res, bounds)
+    def run_plan(plan, share):
+        for kind, n in plan:
+            left = t_end - time.time()
+            if kind == "tok":
+                name = "N=%d SMILES tokens x free table: strict raises iff some atom exceeds its capacity; strict=False never consults the table" % n
+                fn, bounds = mk_path(lambda n=n: make_slots("s", [TOK] * n)), {"tokens": TOK, "N_tokens": n}
+            else:
+                name = ("template %d (atoms at, below and above a capacity; charged, H-bearing, '?'-fallback) x free table" % n) if n < 3 else \
+                    ("template %d (aromatic rings: pyridine/pyridinium/benzene and five-ring heteroaromatics, substituents) x free table" % n)
+                fn, bounds = mk_path(lambda n=n: make_slots("s", TEMPLATES6[n])), {"template": TEMPLATES6[n]}
+            bounds["table"] = "keys %s free in 0..9" % KEYS6
+            if left < 5:
+                rep.parts.append({"name": name, "complete": False, "paths": 0, "bounds": bounds, "claim": "not started (time budget)"})
+                continue
+            res = driver.explore_parallel(fn, left * share)
+            rep.add_part(name, res, bounds)
+
+    run_plan([("tok", 1), ("tok", 2)] + [("tpl", i) for i in range(len(TEMPLATES6))], 0.3)
     # tables that change between calls: strict-encode under table A (fills every cache), switch to table B through the
     # real set_semantic_constraints, strict-encode again: the second outcome must follow table B alone
     WARM = ["C(F)(F)(F)F", "N(F)(F)F", "[NH4+]", "[Fe](F)F", "O=C=O"]
@@ -129,11 +146,12 @@ def run(rep, tier, seed, budget):
 
     left = t_end - time.time()
     if left > 5:
-        res = driver.explore_parallel(hist_path, left * 0.8)
+        res = driver.explore_parallel(hist_path, left * 0.4)
         rep.add_part("table change between calls: strict encode under A, set B, strict encode again: outcome follows B alone", res,
                      {"tables": "A and B: C, N, ? (and N+1 in B) free", "warm-up": WARM, "probe": PROBE})
 
-    rep.assumptions += ["the exact 'iff' is judged on non-aromatic inputs (bond orders are then read directly from the input by O-READ); for aromatic inputs only 'strict succeeds => same string as strict=False' and table-independence are judged",
+    run_plan([("tok", n) for n in ((3,) if quick else (3, 4))], 0.9)
+    rep.assumptions += ["the exact 'iff' is judged on non-aromatic inputs (bond orders read directly from the input by O-READ) and on kekulizable aromatic inputs whose aromatic atoms are all of a standard kind (bond-order sum = sigma bonds + H + O-KEK's 'needs a ring double bond'); for other aromatic inputs only 'strict succeeds => same string as strict=False' and table-independence are judged",
                         "table installed directly; one table change between two strict calls is explored here; longer histories are C11's",
                         "non-interference is decided syntactically: no branch condition recorded during the strict=False call, and no part of its result, may mention a table variable"]
     return ctx.stubs
